@@ -502,6 +502,25 @@ func (s *c13Sess) honest(r *mon.R) bool {
 		} else if len(got) != n {
 			fail("VerifyEncShareBatch", "dropped", fmt.Sprintf("honest batch kept %v of %d", got, n), nil)
 		}
+		// the same batch with ONE commitment evaluation handed in altered (the commitment polynomial itself is honest): the
+		// single-share API refuses that share, so the batch must drop exactly it
+		if ok && n > 0 {
+			jbad := s.rng.IntN(n)
+			sHb := c13cpPs(g, s.sH)
+			sHb[jbad] = g.Point().Add(sHb[jbad], g.Point().Base())
+			Xb, eb := c13cpPs(g, o.X), c13cpShares(g, o.enc)
+			K, E, err := pvss.VerifyEncShareBatch(ver, c13cpP(g, o.H), Xb, sHb, s.pubPoly(o), eb)
+			r.Eval("enc/sH-argument-altered/VerifyEncShareBatch", s.id, true)
+			if err == nil {
+				if got, msg := c13mapBatch(eb, E, Xb, K); msg == "" {
+					for _, k := range got {
+						if k == jbad {
+							fail("VerifyEncShareBatch", "altered-sH-argument-kept", fmt.Sprintf("batch keeps share %d although the commitment evaluation handed in for it was altered (VerifyEncShare refuses it)", jbad), map[string]any{"position": jbad})
+						}
+					}
+				}
+			}
+		}
 	}
 	if !ok {
 		return false
